@@ -491,6 +491,7 @@ static void check_c06(const TypeOps& t) {
           auto idf = CASE_ID("C06|" + t.name + "|v" + std::to_string(i) + "|W:" + w.name + "|second|rem" + std::to_string(c));
           if (!selected(idf)) continue;
           if (out_of_time()) { R.add("incomplete"); return; }
+          progress(idf());
           void* op[2] = {p.objs[i]->p, p.objs[i]->p};
           WOut o = w.run(op, 2, len + c);
           R.counters["evaluations"]++;
